@@ -154,6 +154,12 @@ theories/Onto/Xml_proofs.vos theories/Onto/Xml_proofs.vok theories/Onto/Xml_proo
 theories/Generated/C08_gen.vo theories/Generated/C08_gen.glob theories/Generated/C08_gen.v.beautified theories/Generated/C08_gen.required_vo: theories/Generated/C08_gen.v theories/Base/Prelude.vo theories/Onto/Tree.vo theories/Onto/Xml.vo
 theories/Generated/C08_gen.vio: theories/Generated/C08_gen.v theories/Base/Prelude.vio theories/Onto/Tree.vio theories/Onto/Xml.vio
 theories/Generated/C08_gen.vos theories/Generated/C08_gen.vok theories/Generated/C08_gen.required_vos: theories/Generated/C08_gen.v theories/Base/Prelude.vos theories/Onto/Tree.vos theories/Onto/Xml.vos
+theories/Templ/Template.vo theories/Templ/Template.glob theories/Templ/Template.v.beautified theories/Templ/Template.required_vo: theories/Templ/Template.v theories/Base/Prelude.vo
+theories/Templ/Template.vio: theories/Templ/Template.v theories/Base/Prelude.vio
+theories/Templ/Template.vos theories/Templ/Template.vok theories/Templ/Template.required_vos: theories/Templ/Template.v theories/Base/Prelude.vos
+theories/Templ/Template_proofs.vo theories/Templ/Template_proofs.glob theories/Templ/Template_proofs.v.beautified theories/Templ/Template_proofs.required_vo: theories/Templ/Template_proofs.v theories/Base/Prelude.vo theories/Templ/Template.vo
+theories/Templ/Template_proofs.vio: theories/Templ/Template_proofs.v theories/Base/Prelude.vio theories/Templ/Template.vio
+theories/Templ/Template_proofs.vos theories/Templ/Template_proofs.vok theories/Templ/Template_proofs.required_vos: theories/Templ/Template_proofs.v theories/Base/Prelude.vos theories/Templ/Template.vos
 theories/Props/C01.vo theories/Props/C01.glob theories/Props/C01.v.beautified theories/Props/C01.required_vo: theories/Props/C01.v theories/Base/Prelude.vo theories/Base/Bytes.vo theories/Event/Hash.vo theories/Event/Hash_proofs.vo theories/Generated/C01_gen.vo
 theories/Props/C01.vio: theories/Props/C01.v theories/Base/Prelude.vio theories/Base/Bytes.vio theories/Event/Hash.vio theories/Event/Hash_proofs.vio theories/Generated/C01_gen.vio
 theories/Props/C01.vos theories/Props/C01.vok theories/Props/C01.required_vos: theories/Props/C01.v theories/Base/Prelude.vos theories/Base/Bytes.vos theories/Event/Hash.vos theories/Event/Hash_proofs.vos theories/Generated/C01_gen.vos
@@ -226,6 +232,9 @@ theories/Parse/Tree_proofs.vos theories/Parse/Tree_proofs.vok theories/Parse/Tre
 theories/Props/C15.vo theories/Props/C15.glob theories/Props/C15.v.beautified theories/Props/C15.required_vo: theories/Props/C15.v theories/Base/Prelude.vo theories/Parse/Safe.vo theories/Parse/Safe_proofs.vo theories/Generated/C15_gen.vo
 theories/Props/C15.vio: theories/Props/C15.v theories/Base/Prelude.vio theories/Parse/Safe.vio theories/Parse/Safe_proofs.vio theories/Generated/C15_gen.vio
 theories/Props/C15.vos theories/Props/C15.vok theories/Props/C15.required_vos: theories/Props/C15.v theories/Base/Prelude.vos theories/Parse/Safe.vos theories/Parse/Safe_proofs.vos theories/Generated/C15_gen.vos
+theories/Props/C16.vo theories/Props/C16.glob theories/Props/C16.v.beautified theories/Props/C16.required_vo: theories/Props/C16.v theories/Base/Prelude.vo theories/Templ/Template.vo theories/Templ/Template_proofs.vo
+theories/Props/C16.vio: theories/Props/C16.v theories/Base/Prelude.vio theories/Templ/Template.vio theories/Templ/Template_proofs.vio
+theories/Props/C16.vos theories/Props/C16.vok theories/Props/C16.required_vos: theories/Props/C16.v theories/Base/Prelude.vos theories/Templ/Template.vos theories/Templ/Template_proofs.vos
 theories/Props/C18.vo theories/Props/C18.glob theories/Props/C18.v.beautified theories/Props/C18.required_vo: theories/Props/C18.v theories/Base/Prelude.vo theories/Event/Merge.vo theories/Event/Merge_proofs.vo theories/Event/Stream.vo theories/Event/Collection.vo theories/Event/Collection_proofs.vo
 theories/Props/C18.vio: theories/Props/C18.v theories/Base/Prelude.vio theories/Event/Merge.vio theories/Event/Merge_proofs.vio theories/Event/Stream.vio theories/Event/Collection.vio theories/Event/Collection_proofs.vio
 theories/Props/C18.vos theories/Props/C18.vok theories/Props/C18.required_vos: theories/Props/C18.v theories/Base/Prelude.vos theories/Event/Merge.vos theories/Event/Merge_proofs.vos theories/Event/Stream.vos theories/Event/Collection.vos theories/Event/Collection_proofs.vos
